@@ -270,7 +270,13 @@ func (r *WALReader) ReadHeader() error {
 		return fmt.Errorf("unsupported wal version: %d", version)
 	}
 
+	// SQLite treats a WAL whose page size is not a power of two between 512
+	// and 65536 as empty.
 	r.pageSize = binary.BigEndian.Uint32(hdr[8:])
+	if r.pageSize < 512 || r.pageSize > 65536 || r.pageSize&(r.pageSize-1) != 0 {
+		r.pageSize = 0
+		return io.EOF
+	}
 	r.seq = binary.BigEndian.Uint32(hdr[12:])
 	r.salt1 = binary.BigEndian.Uint32(hdr[16:])
 	r.salt2 = binary.BigEndian.Uint32(hdr[20:])
